@@ -195,6 +195,14 @@ pub fn check_case(case: &PkeCase, col: &Collector) -> CheckResult {
         (Shape::Absent, false) | (Shape::Empty, true) | (Shape::Len(_), true) => {}
         (m, p) => return Err(Fail::new("header-metadata-presence", format!("metadata {m:?} -> encrypted_metadata present = {p}"))),
     }
+    // the same oracle applies to the header after a serialization round-trip (half of the cases)
+    let header = if case.pos % 2 == 0 {
+        col.class("header:via-serialization");
+        let b = ser(&header)?;
+        de::<EncryptedHeader>(&b).map_err(|e| Fail::new("header-roundtrip-failed", e))?
+    } else {
+        header
+    };
     let r = header.decrypt(&fx.cc, &fx.authorized, aad_dec.as_deref());
     if same {
         match r {
@@ -211,7 +219,7 @@ pub fn check_case(case: &PkeCase, col: &Collector) -> CheckResult {
             Ok(None) => return Err(Fail::new("header-authorized-refused", "authorized key got None".to_string())),
             Err(e) => return Err(Fail::new("header-authorized-error", format!("metadata {:?} aad_gen {:?} aad_dec variant {}: Err({})", case.metadata, case.aad_gen, case.aad_dec, short_err(&e)))),
         }
-    } else if header.encrypted_metadata.is_some() {
+    } else if md.is_some() {
         match r {
             Err(_) => {}
             Ok(x) => return Err(Fail::new("header-aad-mismatch-accepted", format!("authentication data differs (gen {:?}, dec variant {}), decrypt returned Ok({})", case.aad_gen, case.aad_dec, if x.is_some() { "Some" } else { "None" }))),
@@ -273,7 +281,7 @@ pub fn check_case(case: &PkeCase, col: &Collector) -> CheckResult {
 
 pub fn run(ctx: &Ctx, col: &Collector) -> Meta {
     run_cases(&ctx.run_cfg(ctx.n(6000, 150_000), 1), "pke", strategy, col, check_case);
-    for c in ["c12:boundary-length", "c12:mismatching-aad", "c12:truncated-below-nonce", "c12:unauthorized-key", "aad:absent-vs-empty", "pke-truncations", "header-metadata-tamper"] {
+    for c in ["c12:boundary-length", "c12:mismatching-aad", "c12:truncated-below-nonce", "c12:unauthorized-key", "aad:absent-vs-empty", "pke-truncations", "header-metadata-tamper", "header:via-serialization"] {
         if col.class_count(c) == 0 && !col.stopped() {
             col.note(format!("generator unhealthy: class {c} empty"));
         }
